@@ -64,20 +64,22 @@ func genPlumb(sh *Shape) {
 		wk = append([]string{kp[n-1]}, kp[:n-1]...)
 	}
 	av := mkVals(c.Wargs, wk, kinds)
-	var call string
+	// wexpr: the function the wrapper returns (for curry: already applied to the first argument);
+	// final: the arguments of the call that must invoke the original function
+	var wexpr, final string
 	switch c.Kind {
 	case "curry":
-		call = fmt.Sprintf("deriveCurry(fv)(%s)(%s)", av[0], strings.Join(av[1:], ", "))
+		wexpr, final = fmt.Sprintf("deriveCurry(fv)(%s)", av[0]), strings.Join(av[1:], ", ")
 	case "flip":
-		call = fmt.Sprintf("deriveFlip(fv)(%s)", strings.Join(av, ", "))
+		wexpr, final = "deriveFlip(fv)", strings.Join(av, ", ")
 	case "apply":
-		call = fmt.Sprintf("deriveApply(fv, %s)(%s)", av[0], strings.Join(av[1:], ", "))
+		wexpr, final = fmt.Sprintf("deriveApply(fv, %s)", av[0]), strings.Join(av[1:], ", ")
 	case "uncurry":
-		call = fmt.Sprintf("deriveUncurry(gv)(%s)", strings.Join(av, ", "))
+		wexpr, final = "deriveUncurry(gv)", strings.Join(av, ", ")
 	case "unccur":
-		call = fmt.Sprintf("deriveUncurry(deriveCurry(fv))(%s)", strings.Join(av, ", "))
+		wexpr, final = "deriveUncurry(deriveCurry(fv))", strings.Join(av, ", ")
 	case "tuple":
-		call = fmt.Sprintf("deriveTuple(%s)()", strings.Join(av, ", "))
+		wexpr, final = fmt.Sprintf("deriveTuple(%s)", strings.Join(av, ", ")), ""
 		sh.Call = "deriveTuple(" + strings.Join(pt, ", ") + ")"
 	}
 	var rows [][]int
@@ -85,7 +87,8 @@ func genPlumb(sh *Shape) {
 		rows = append(rows, []int{cs.ID})
 	}
 	l, vs := lhs(len(kr), false, ":=")
-	body := fmt.Sprintf("\t\t\t%s%s\n\t\t\to.Ret = rt.Ints(%s)\n", l, call, strings.Join(prArgs(vs, kr, kinds), ", "))
+	// nothing may be logged before the returned function is called
+	body := fmt.Sprintf("\t\t\tw := %s\n\t\t\to.Early = len(rt.Peek())\n\t\t\t%sw(%s)\n\t\t\to.Ret = rt.Ints(%s)\n", wexpr, l, final, strings.Join(prArgs(vs, kr, kinds), ", "))
 	b.WriteString(runLoop(rows, "", body, "\t\to.Calls = rt.Take()\n"))
 	sh.Src = b.String()
 	kindOrder := map[string]int{"curry": 0, "uncurry": 1, "flip": 2, "apply": 3, "tuple": 4, "unccur": 5}
